@@ -101,12 +101,13 @@ theorem exConflicted : Conflicted exSets eA := by
   have : eB = eA := (hk [eC, eM, eP, eB] (by simp [exSets]) eB).mp ⟨by simp, key_B⟩
   exact absurd this (ne_of_id (by decide))
 
-/-! ## Version 1: the order of the member blocks matters (a finding about the library, reproduced on the Go code)
+/-! ## Version 1: the order of the member blocks does not matter (any more)
 
   Room version 1; `$A0`: @a joined; conflicted: two further joins of @a (`A1`, `A2`) and two invites of @b SENT BY @a
-  (`B1`, `B2`); auth events: create, creator's join, public join rules, `A0`.  `resolveAuthBlock` clears the winner's
-  slot until the phase is over, which also drops `A0`; so the @b block sees "@a has no membership" iff the @a block was
-  resolved first, and the order of the blocks is the (map-iteration) order of the conflicted list. -/
+  (`B1`, `B2`); auth events: create, creator's join, public join rules, `A0`.  Before the fix of `resolveAuthBlock`
+  (which used to clear the winner's slot until the phase was over, dropping `A0`) the @b block saw "@a has no
+  membership" iff the @a block was resolved first, and the Go code answered `nondet:…$B1…|…$B2…` on this input;
+  now every block leaves the registered events as it found them and both orders give `$A2`, `$B2`. -/
 
 def mk1 (id type : Bytes) (sk : Bytes) (sender : Bytes) (depth : Bytes) (auth : List Bytes) (content : JVal) : Event :=
   { ver := b!"1", eventID := id,
@@ -125,11 +126,11 @@ def vB1 := mk1 b!"$B1:h" b!"m.room.member" b!"@b:h" b!"@a:h" b!"7" [b!"$C:h", b!
 def vB2 := mk1 b!"$B2:h" b!"m.room.member" b!"@b:h" b!"@a:h" b!"8" [b!"$C:h", b!"$JR:h", b!"$A0:h"] (memb b!"invite")
 def vAuth : List Event := [vC, vJC, vJR, vA0]
 
-/-- the same conflicted events, presented in two orders, resolve differently (kernel-evaluated on the model; the Go
-    code answers `nondet:…$B1…|…$B2…` on the corresponding op line) -/
-theorem v1_order_dependent :
+/-- the same conflicted events, presented in two orders, resolve to the same events (kernel-evaluated on the model;
+    the Go code answers `$A2:h,$B2:h,$C:h,$JC:h,$JR:h` on the corresponding op line) -/
+theorem v1_former_counterexample :
     ((resolveV1 (fun id => id) [vA1, vA2, vB1, vB2] vAuth).map (·.eventID),
      (resolveV1 (fun id => id) [vB1, vB2, vA1, vA2] vAuth).map (·.eventID)) =
-      ([b!"$A2:h", b!"$B1:h"], [b!"$B2:h", b!"$A2:h"]) := by decide +kernel
+      ([b!"$A2:h", b!"$B2:h"], [b!"$B2:h", b!"$A2:h"]) := by decide +kernel
 
 end V.StateResSpec.Example
